@@ -7,7 +7,7 @@ EXPLANATION = ('The real BaseNumberParser.__get_int_value (English maps and reso
 ASSUMPTIONS = ['token shapes: per three-digit group u | teen | tens | tens ones | u hundred [and] (u | teen | tens | tens ones); groups units..trillion',
                'quick: every one-group shape and the two-group shapes of (thousand|million|trillion, units) and (million, thousand) with 5 patterns for the higher group; thorough: all two-group and selected three-group shapes', 'ordinals: the last word in its ordinal form (first..ninth, tenth..nineteenth, twentieth.., hundredth, thousandth, ...)',
                'Decimal(tmp_val) at the end is the exact proxy of harness/symdec.py']
-OUTSIDE = ['the extraction regexes (which spellings are extracted as one entity) and BaseMergedNumberExtractor', 'ordinals of the cultures other than English; Chinese / Japanese (CJK parser)', 'spellings of the recorded findings F26-F29', 'zero, "a hundred", dozens, fractions, decimals ("point five")',
+OUTSIDE = ['the extraction regexes (which spellings are extracted as one entity) and BaseMergedNumberExtractor', 'ordinals of the cultures other than English', 'Japanese numerals from 10^4 (万) upwards (recorded findings F34, F35)', 'spellings of the recorded findings F26-F29', 'zero, "a hundred", dozens, fractions, decimals ("point five")',
            'CJKNumberParser']
 N = 'recognizers_number.number.parsers:'
 
@@ -80,6 +80,21 @@ def obligations(tier):
     for lang, fid, what in (('french', 'F27', 'plural "cents" and "un million ..."'), ('italian', 'F28', 'accented "-tré"'), ('portuguese', 'F29', '"catorze"'), ('spanish', 'F26', '"mil ... millones"')):
         obs.append(Ob('O4.3-known-%s' % lang[:2], 'fn', 'harness.C04x:validate', slices=[{'lang': lang, 'kf': 1}], timeout=max(t, 600), finding=fid,
                       descr='region %s: %s' % (fid, what)))
+    for lang in ('chinese', 'japanese'):
+        np_ = 4 if lang == 'chinese' else 1
+        obs.append(Ob('O4.1-int-value-%s' % {'chinese': 'zh', 'japanese': 'ja'}[lang], 'sx', 'harness.C04cjk:h_int_value', twin='harness.C04cjk:t_int_value',
+                      slices=[dict({'lang': lang, 'part': i, 'nparts': np_}, **KX) for i in range(np_)], timeout=max(t, 600),
+                      descr='%s numerals: CJKNumberParser.get_int_value on every numeral shape the standard spellings of the sample numbers produce (digit characters 1..9 replaced by '
+                            'placeholder characters with symbolic values in a copy of the real zero_to_nine_map; round and zero characters literal): the kernel returns what the '
+                            'independent positional evaluator gives' % lang.capitalize(),
+                      bounds='shapes of the sample numbers below 10^12 (Chinese) / 10^4 (Japanese: beyond 万 see F34, F35); every digit 1..9 symbolic',
+                      encodes=['recognizers_number.number.cjk_parsers:CJKNumberParser.get_int_value'],
+                      stubs=['digit characters -> placeholder characters with symbolic values added to a copy of the real digit map']))
+        obs.append(Ob('O4.3-api-%s' % {'chinese': 'zh', 'japanese': 'ja'}[lang], 'fn', 'harness.C04cjk:validate', slices=[dict({'lang': lang}, **KX)], timeout=max(t, 600),
+                      descr='composition check (not a verdict): every sample numeral comes back from recognize_number as one entity with its value; its shape is in the verified set'))
+    obs.append(Ob('O4.3-known-ja', 'fn', 'harness.C04cjk:validate', slices=[{'lang': 'japanese', 'kf': 1}], timeout=t, finding='F34', descr='region F34: bare 百 / 千'))
+    obs.append(Ob('O4.3-witness-ja', 'fn', 'harness.C04cjk:ja_witness', slices=[{'w': 'F34'}], timeout=t, finding='F34', descr='API witness of F34 beyond 万'))
+    obs.append(Ob('O4.3-witness-ja2', 'fn', 'harness.C04cjk:ja_witness', slices=[{'w': 'F35'}], timeout=t, finding='F35', descr='API witness of F35'))
     return obs
 
 
